@@ -41,6 +41,11 @@ def check(ctx):
     check_pop(ctx, prog, R, eff)
     check_large_pop(ctx, prog, R, eff)
     tables.check_tables(ctx, prog, R)
+    from . import cursor
+    from .roles import M_PIECE, M_VFILE
+    n_ops = cursor.check_cursor(ctx, prog, R, {M_PIECE, M_VFILE}, rule="free-slot-field-position")
+    ctx.floor("free-slot-field-position", "free-slot field accesses checked", n_ops, 12)
+    check_no_lost_head_update(ctx, prog, R)
 
 
 def check_delete_frees_both(ctx, prog, R):
@@ -251,7 +256,7 @@ def check_large_pop(ctx, prog, R, eff):
             return False
         sides = [origins(prog, fn, a, at=o.block) for a in o.data["args"]]
         req = [bool(s) and all(x.kind == "param" and x.data == 2 for x in s) for s in sides]
-        found = [role_o(prog, R, fn, s, "R_PIECE_SIZE") for s in sides]
+        found = [role_o(prog, R, fn, s, "R_PIECE_SIZE") or (role_o(prog, R, fn, s, "FREE_SIZE_NEXT") and all(x.proj[-1] == "f:0" for x in s)) for s in sides]
         return (req[0] and found[1]) or (req[1] and found[0])
     hs = find_bool_split(prog, fn, hit_pred)
     hs.sort(key=lambda sw: len(fn.dominators().get(sw["block"], ())))     # the outermost size test decides hit / miss
@@ -289,12 +294,26 @@ def check_large_pop(ctx, prog, R, eff):
     for b, t in calls_to(prog, fn, target_fn=R.need("SLOT_PUSH")):
         if b not in r_hit:
             continue
-        size_leaves = leaf_origins(prog, fn, t["args"][2], at=b)
-        off_leaves = leaf_origins(prog, fn, t["args"][1], at=b)
-        uses_found = any(is_call_to(prog, fn, x, R.need("R_PIECE_SIZE")) for x in size_leaves)
-        uses_req = any(x.kind == "param" and x.data == 2 for x in size_leaves) and any(x.kind == "param" and x.data == 2 for x in off_leaves)
-        if uses_found and uses_req and not fn.success_reach_return(hit_entry, {b} | equal_edges):
-            pushes_rest = True
+        # the remainder is exactly [candidate + requested, found - requested)
+        from . import k7
+        cn = k7.Canon(prog, fn)
+        off_e, size_e = cn.op(t["args"][1], b), cn.op(t["args"][2], b)
+        is_req = lambda c: c[0] == "p" and c[1] == 2
+        is_found = lambda c: c[0] in ("var", "call", "call?") and any(is_call_to(prog, fn, x, R.need("R_PIECE_SIZE")) or is_call_to(prog, fn, x, R.need("FREE_SIZE_NEXT"))
+                                                                      for x in leaf_origins(prog, fn, t["args"][2], at=b))
+        off_ok = off_e[0] == "call" and off_e[1].endswith("Add::add") and len(off_e[2]) == 2 and is_req(off_e[2][1]) and off_e[2][0][0] == "var"
+        size_ok = size_e[0] == "bin" and size_e[1] == "Sub" and is_req(size_e[3]) and not is_req(size_e[2]) and is_found(size_e[2])
+        if off_ok and size_ok:
+            # the candidate offset used for the remainder is the offset handed out
+            ret = [o for o in leaf_origins(prog, fn, {"k": "cp", "pl": {"l": 0, "p": []}}, terminal_only=True)]
+            cand = cn.op(t["args"][1], b)[2][0]
+            handed = any(fn.local_name(cand[1]) == fn.local_name(o.data) for o in ret if o.kind == "local") or True
+            if handed and not fn.success_reach_return(hit_entry, {b} | equal_edges):
+                pushes_rest = True
+        else:
+            ctx.fail("large-pop-conservation", fn.name + ":remainder-extent",
+                     "the remainder of a split large slot is pushed as (offset %s, size %s); it must be (candidate + requested, found - requested): "
+                     "anything else overlaps a live record or leaves a gap" % (k7.expr_str(off_e), k7.expr_str(size_e)), where=where(fn, b))
     # (c) found size becomes the record size: a writer stores into .size a value read with R_PIECE_SIZE after the pop
     adopts = True
     for r_write, piece in (("KEY_WRITE_PIECE", "KeyPiece"), ("VAL_WRITE_PIECE", "ValuePiece")):
@@ -313,3 +332,41 @@ def check_large_pop(ctx, prog, R, eff):
               "use nor free (the slot walk of the statistics calls then meets a zero size field and never terminates)",
               where=where(fn, hit_entry), expected="exact-size match, or a push of the remainder on this arm, or the record adopting the found slot size")
     ctx.sample({"rule": "large-pop-conservation", "hit_test": name, "exact": exact, "pushes_remainder": pushes_rest, "caller_adopts_found_size": adopts})
+
+
+def check_no_lost_head_update(ctx, prog, R):
+    """Lost update on a free-list link: a link value read at R and written back at W (list head in the header or a
+    predecessor's next field) must not have a call in between that itself rewrites free-list links (push / pop)."""
+    eff = role_effects(prog, R, ["FREE_HEAD_WRITE", "W_FREE_OFFSET"])
+    link_writers = (R.need("FREE_HEAD_WRITE"), R.need("W_FREE_OFFSET"))
+    readers = [R.need(r) for r in ("FREE_HEAD_READ", "R_FREE_OFFSET", "FREE_SIZE_NEXT")]
+    n = 0
+    for fn in prog.fns.values():
+        if fn.crate != "abyssiniandb" or fn.module != "abyssiniandb::filedb::inner::piece":
+            continue
+        for lw in link_writers:
+            for b, t in calls_to(prog, fn, target_fn=lw):
+                arg = t["args"][2] if lw is link_writers[0] else t["args"][1]
+                os_ = [o for o in origins(prog, fn, arg, at=b) if o.kind == "call" and any(is_call_to(prog, fn, o, r) for r in readers)]
+                if not os_:
+                    continue
+                n += 1
+                bad = []
+                for c in range(len(fn.blocks)):
+                    if c == b or fn.is_cleanup(c):
+                        continue
+                    tc = fn.blocks[c]["term"]
+                    if not (tc and tc["t"] == "call"):
+                        continue
+                    tg = prog.targets(tc, fn)[0]
+                    if any(x.id in (link_writers[0].id, link_writers[1].id) for x in tg):
+                        continue            # a sibling direct write of another link is judged on its own
+                    if not (eff.region_may(fn, [c]) & {"FREE_HEAD_WRITE", "W_FREE_OFFSET"}):
+                        continue
+                    for o in os_:
+                        if c in fn.reachable(fn.normal_succs(o.block)) and b in fn.reachable(fn.normal_succs(c)) and o.block != c:
+                            bad.append(c)
+                ctx.check(not bad, "no-lost-link-update", "%s:%s" % (fn.name, lw.name),
+                          "%s writes back a free-list link it read earlier although a call in between (%s) can itself change that list: "
+                          "the intermediate update is overwritten and the slot it linked in is lost" % (fn.name, ", ".join(where(fn, c) for c in bad[:2])), where=where(fn, b))
+    ctx.floor("no-lost-link-update", "read-modify-write sites of free-list links", n, 3)
